@@ -77,7 +77,9 @@ DIRECT_ITERATION_OK = {
 def run(ctx) -> None:
     for rid, text in (("R03.1", "user callables -> awaitify -> await"), ("R03.2", "iterables -> aiter / ScopedIter / tool"),
                       ("R03.3", "adapter dispatch shape (aiter, awaitify, Awaitify.__call__)"),
-                      ("R03.4", "public return kinds are awaitable / async iterator / async context manager")):
+                      ("R03.4", "public return kinds are awaitable / async iterator / async context manager"),
+                      ("R03.7", "an awaitified callable is called and awaited under the same handlers and cleanups"),
+                      ("R03.9", "awaitify wraps user callables only, never a plain library function returning a user value")):
         ctx.rule(rid, text)
     ctx.tables["by contract"] = BY_CONTRACT
     ctx.tables["direct iteration by design"] = DIRECT_ITERATION_OK
@@ -94,6 +96,11 @@ def run(ctx) -> None:
     sub_ctx = Relabel(ctx, "R03.6", only=("R06.1",))
     for u in real_units(ctx):
         c06._census(sub_ctx, u)
+    # the adapter for "an iterable, possibly behind an awaitable, of items possibly behind awaitables":
+    # every flavour combination is handled (C19's shape table, shared)
+    from . import c19
+    ctx.rule("R03.8", "any_iter accepts every combination of (awaitable of) sync / async iterable of (awaitable) items (R19.2, shared)")
+    c19.r19_2(Relabel(ctx, "R03.8"))
     ctx.floor("awaitified_calls", 8)
     ctx.floor("awaitify_sites", 10)
     ctx.floor("iterable_params", 25)
@@ -194,6 +201,7 @@ def r03_1(ctx) -> None:
             fv = ctx.vals.expr(u, call.func, n)  # type: ignore[union-attr]
             if _is_awaitify(fv):
                 ctx.count("awaitify_sites")
+                awaitify_argument(ctx, "R03.9", u, n)
             raw = [a for a in fv if a[0] in ("user", "result", "item") or
                    (a[0] == "usermeth" and a[2] not in PROTOCOL_METHODS)]
             raw = [a for a in raw if not _container_param(ctx, a)]
@@ -204,6 +212,12 @@ def r03_1(ctx) -> None:
                     outer = outer.parent  # nested wrappers are covered by their enclosing definition
                 contract = BY_CONTRACT.get(ctx.pkg.canonical(outer)) or (
                     BY_CONTRACT.get(ctx.pkg.canonical_class(outer.cls)) if outer.cls is not None else None)
+                if not contract and _is_internal(outer):
+                    # a private factory working on behalf of by-contract operation(s) only
+                    from .common import callers_of
+                    users = callers_of(ctx, outer)
+                    if users and all(BY_CONTRACT.get(ctx.pkg.canonical(v)) for v in users):
+                        contract = BY_CONTRACT[ctx.pkg.canonical(users[0])] + f" (through the private helper {outer.short})"
                 if contract:
                     ctx.ok("R03.1", u, f"raw call `{norm(call.func)}(...)` is by contract: {contract}")
                 else:
@@ -233,6 +247,55 @@ def r03_1(ctx) -> None:
                 ctx.check(ok, "R03.1", u, call, "the result of the awaitified callable is awaited before any other use"
                           if ok else f"the result of the awaitified callable `{norm(call.func)}` is used without being "
                           f"awaited ({why})", node=n)
+                if ok:
+                    _same_protection(ctx, u, cfg, n, parents)
+
+
+def _same_protection(ctx, u: Unit, cfg, n: Node, parents) -> None:
+    """R03.7: an awaitified *synchronous* callable runs (and fails) when it is called, an asynchronous
+    one when the result is awaited.  Both points must therefore be covered by the same handlers and
+    cleanups: the exceptional successor of the call node and of the awaiting node is the same node."""
+    call = n.ast
+    p = parents.get(id(call))
+    awaits: List[Node] = []
+    if isinstance(p, ast.Await):
+        awaits = [m for m in cfg.nodes if m.kind == "await" and not m.tag and m.info.get("value") is call]
+    else:
+        tgt = p.targets[0] if isinstance(p, ast.Assign) and len(p.targets) == 1 else p.target if isinstance(p, ast.AnnAssign) else None
+        if isinstance(tgt, ast.Name):
+            stores = [s for s in cfg.nodes if s.kind == "store" and not s.tag and s.info.get("value") is call]
+            rd = reaching(cfg)
+            for m in cfg.nodes:
+                if m.kind == "await" and not m.tag and isinstance(m.info.get("value"), ast.Name) and m.info["value"].id == tgt.id \
+                        and any(d in stores for d in rd.defs_at(m, tgt.id)):
+                    awaits.append(m)
+    ctx.count("call_await_pairs", len(awaits))
+    for m in awaits:
+        same = n.exc_succ() is m.exc_succ()
+        ctx.check(same, "R03.7", u, call,
+                  "calling the awaitified callable and awaiting its result are covered by the same handlers / cleanups"
+                  if same else
+                  f"`{norm(call.func)}(...)` is called outside the protection that covers `{norm(m.ast)}`: a synchronous "
+                  "callable fails at the call, an asynchronous one at the await — the two flavours are handled differently",
+                  node=n)
+
+
+def awaitify_argument(ctx, rid: str, u: Unit, n: Node) -> None:
+    """awaitify() decides at the first call whether its callable is asynchronous by looking at what it
+    returned.  Wrapping one of the library's own *plain* functions that hands back a user value (an
+    identity default) makes that probe look at the user's item: an awaitable item is then awaited
+    instead of being passed through.  Library defaults must be coroutine functions, used as they are."""
+    call = n.ast
+    for a in list(call.args) + [k.value for k in call.keywords]:
+        for x in ctx.vals.expr(u, a, n):
+            if x[0] == "libfn":
+                t = ctx.pkg.lib_unit(x[1])
+                if t is not None and t.kind == "sync" and t.cls is None:
+                    ctx.fail(rid, u, call, f"awaitify is applied to the library's own plain function `{t.short}`: its result (a user "
+                             "value) is probed for awaitability on the first call, so awaitable items are awaited instead of "
+                             "passed through", node=n)
+                    return
+    ctx.ok(rid, u, f"`{norm(call)}` wraps a user callable (or an asynchronous library default)", line=getattr(call, "lineno", None))
 
 
 def _is_awaitify(fv: Val) -> bool:
@@ -433,9 +496,16 @@ def r03_3(ctx) -> None:
                       "the object's own async iterator" if is_async else
                       "the library's wrapper generator around the synchronous iterable"), witness=str(sorted(map(str, got))))
     s = ctx.unit("_core._aiter_sync")
-    loops = [n for n in own_nodes(s.node) if isinstance(n, ast.For)]
-    ok = len(loops) == 1 and norm(loops[0].iter) == s.param_names()[0] and s.kind == "asyncgen" \
-        and any(isinstance(x, ast.Yield) and norm(x.value) == norm(loops[0].target) for x in ast.walk(loops[0]))
+    # the wrapper as a table: every item of the synchronous iterable, once, in order (abstract evaluation)
+    from . import tooltables
+    tooltables.sync_wrapper_table(ctx, "R03.3")
+    ctx.floor("adapter_table_cells_decided", 4)
+    # ... and it hands the iterable to Python's own iteration protocol (a ``for`` loop or iter()), so that
+    # iterators and __getitem__ sequences both work
+    loops = [n for n in own_nodes(s.node) if isinstance(n, ast.For) and norm(n.iter) == s.param_names()[0]]
+    iters = [n for n in own_nodes(s.node) if isinstance(n, ast.Call) and norm(n.func) == "iter" and len(n.args) == 1
+             and norm(n.args[0]) == s.param_names()[0]]
+    ok = (len(loops) + len(iters)) == 1 and s.kind == "asyncgen"
     ctx.check(ok, "R03.3", s, "_aiter_sync", "the sync wrapper iterates with a plain `for` (so iterators and "
               "__getitem__ sequences both work) and yields every item unchanged")
     # --- awaitify: coroutine functions pass, everything else is wrapped for run-time detection
@@ -705,9 +775,18 @@ def _aclose_guard(ctx, u, cfg, n, recv, v, find_path, abstract_values) -> str:
         if isinstance(recv, ast.Name) and isinstance(loop.target, ast.Name) and loop.target.id == recv.id \
                 and isinstance(loop.iter, ast.Attribute) and norm(loop.iter.value) == "self" and u.cls is not None:
             init = u.cls.methods.get("__init__")
+            if init is not None:
+                init = ctx.inlined(init)  # the collection may be built by a private helper
             for st in (own_nodes(init.node) if init is not None else []):
                 tg = st.targets[0] if isinstance(st, ast.Assign) else st.target if isinstance(st, ast.AnnAssign) else None
                 if isinstance(tg, ast.Attribute) and tg.attr == loop.iter.attr and st.value is not None:
+                    if isinstance(st.value, ast.Name):
+                        from .common import name_value
+                        icfg = cfg_of(init)
+                        at = next((x for x in icfg.nodes if x.kind == "store" and not x.tag and x.stmt is st), None)
+                        alias = name_value(ctx, init, icfg, at, st.value.id) if at is not None else None
+                        if alias is not None:
+                            st = ast.copy_location(ast.Assign(targets=[tg], value=alias), st)
                     comps = [c for c in ast.walk(st.value) if isinstance(c, (ast.GeneratorExp, ast.ListComp))]
                     conds = [c for comp in comps for g in comp.generators for c in g.ifs]
                     if conds and all(abstract_values(ctx, init, _NoAcloseOps(), c, {}) == {False} for c in conds):
